@@ -144,6 +144,25 @@ def check_case(case):
             out.append(("parsed-fields-differ", f"{text!r} -> {header_fields(h2, fields)}, expected {want}"))
         if body != BODY:
             out.append(("body-differs", f"{text!r} -> body {body!r}"))
+        # byte-level corruption: a byte that is no text in any tolerated encoding of the header, inside a field value -
+        # the field is then outside its domain whatever the decoder makes of it; any refusal will do (this is not
+        # "header text" any more), but no header object may come out
+        good = (text + BODY).encode("ascii")
+        for fld in ("SECURITY", "VERSION", "OFXHEADER"):
+            val = want[fld].encode("ascii")
+            marker = (fld.encode("ascii") + (b":" if major == 1 else b'="')) + val
+            at = good.find(marker)
+            if at < 0:
+                continue
+            pos = at + len(marker) - len(val) + max(1, len(val) // 2)
+            for junk in (b"\xe9", b"\xff", b"\x92", b"\xc3"):
+                data = good[:pos] + junk + good[pos:]
+                try:
+                    r = hdr.parse_header(io.BytesIO(data))
+                    out.append((f"corrupt-header-accepted/undecodable-byte-in-{fld}", f"{data[:200]!r} -> {header_fields(r[0], fields)}"))
+                    break
+                except Exception:
+                    pass
         for name, bad in corruptions(major, want):
             try:
                 r = hdr.parse_header(io.BytesIO((bad + BODY).encode("ascii")))
